@@ -213,6 +213,10 @@ def stmt (st : St) (ws : List String) : St × String :=
       if cands.isEmpty then none else
       let cs ← streams st cands
       pure (.switchs sel cs)) .s
+  | ["switchdyn", x, sel, s, op] =>
+    -- switch_s over candidates built afresh at every update of the selector, candidate for `k` = `s.map (f2 op · k)`:
+    -- it emits `f2 op v (value of sel at the start of the transaction)`, which is exactly `snapshot s sel op`
+    defStmt st x (do pure (.snapshot (← st.stream s) (← st.cell sel) (← num op))) .s
   | "switchc" :: x :: sel :: cands =>
     defStmt st x (do
       let sel ← st.cell sel
